@@ -109,4 +109,30 @@ META = {
         note=BASE_NOTE + "Trusted additionally: the translator go/eng/typegraph_test.go (reflection over the pinned generated structs; oracle from proto tags; reviewed non-event blob list). Modelled not verified: visit.Values' universal descent, protobuf codecs, the event serializer.",
         technique="Lean 4 generic path theorem + regenerated finite obligations (decide +kernel) + model/implementation correspondence",
     ),
+    "C13": dict(
+        text="Theorems for ALL mappings and names: exact-match lookup leaves unmapped names untouched, a name is mapped once (chains a->b,b->c), NewStaticBiMap "
+             "succeeds exactly for one-to-one lists, round trip through a mapping and its inverse restores every name that is not an unmapped image, the two servers "
+             "of a cluster connection use opposite maps so out-and-back restores the name; on the regenerated type graph every field the visitor can assign is a "
+             "namespace-name field (finite obligation, kernel-evaluated). Tied to collect.NewStaticBiMap, the real translator and a running proxy pair.",
+        design_ref="DESIGN.md §5 C13",
+        note=BASE_NOTE + "Modelled not verified: Go map semantics as association lists; 'every other field identical' is checked behaviourally (reference translation + proto.Equal), not proved for the Go reflection library.",
+        technique="Lean 4 algebraic/round-trip theorems + regenerated finite obligation + model/implementation correspondence (exhaustive bimap lists, end-to-end direction)",
+    ),
+    "C14": dict(
+        text="Theorems for ALL mappings and key sets: every key goes through the exact-match mapping once, values and size untouched, distinct keys stay distinct "
+             "under the property's no-collision hypothesis; the translator is off for WorkflowService and on for AdminService; on the regenerated type graph every "
+             "search-attributes container sits in a field the visitor recognises (finite obligation). Tied to the real translator on every container path incl. blobs.",
+        design_ref="DESIGN.md §5 C14",
+        note=BASE_NOTE + "Modelled not verified: Go map iteration/rebuild (association lists), payload bytes compared behaviourally.",
+        technique="Lean 4 key-rename theorems + regenerated finite obligation + model/implementation correspondence",
+    ),
+    "C16": dict(
+        text="Theorems: for every policy, method of either service and request, a name outside the allow-list among the names the visitor sees => refused before the "
+             "handler; the visitor sees the name at the end of EVERY structural path of the current tree (C12's coverage theorem over regenerated facts: translation "
+             "and access matching are the same traversal); ListNamespaces keeps exactly the allowed names in order; the decision has no bypass-header input. Tied to "
+             "the real interceptor on every kind of path with allowed/forbidden/empty names and combinations, and end to end with translation + bypass header.",
+        design_ref="DESIGN.md §5 C16",
+        note=BASE_NOTE + "Shares C12's trusted translator. The end-to-end ordering translation -> ACL is observed on a running proxy, the interceptor chain itself is gRPC's.",
+        technique="Lean 4 decision-logic theorems composed with C12's regenerated coverage theorem + model/implementation correspondence",
+    ),
 }
